@@ -104,7 +104,8 @@ pub fn c11(tier: &str, acc: &mut Acc, bounds: &mut Vec<String>) {
     let level = if tier_is_thorough(tier) { 1 } else { 0 };
     let fams = pop::families_for(level);
     let ks: Vec<u32> = if level == 0 {
-        vec![1, 2, 3, 5, 64]
+        // every value up to 17 (powers of two, odd values, their neighbours) and a few large ones
+        (1..=17).chain([24, 31, 32, 33, 48, 64]).collect()
     } else {
         (1..=64).collect()
     };
